@@ -28,20 +28,38 @@ theorem read_table_only (q : Select) (ps : Env) (t : List SRow) (c : Col) (g : S
     have := select_other_row q ps r c g hp h
     simp [this] at hr
 
+/-- The shapes of statement / WHERE clause that `TieSql*.lean` tie to the model. -/
+def knownShapes : List String :=
+  ["frag_and_cas", "ins_cas_collection_exp_isJSON_key_revSeqNo_value_xattrs", "sel_by_casGe_collection__order_cas", "sel_by_casGt_collection",
+   "sel_by_casGt_collection_or", "sel_by_collection_expLe_expPos", "sel_by_collection_key", "sel_by_collection_key_tombstoneIs1",
+   "sel_by_collection_key_valueSet", "sel_by_collection_valueSet", "sel_by_expPos", "sel_by_valueNull",
+   "upd_cas_exp0_isJSON0_revSeqNo_tombstone1_valueN_xattrs__by_collection_key", "upd_cas_exp_isJSON_revSeqNo_tombstone0_value_xattrs__by_collection_key",
+   "upd_cas_exp_isJSON_revSeqNo_tombstone_value_xattrs__by_cas_collection_key",
+   "upd_cas_exp_isJSON_revSeqNo_tombstone_value_xattrs__by_cas_collection_key_valueSet", "upd_cas_revSeqNo_xattrs__by_collection_key",
+   "upd_exp_revSeqNo__by_collection_key",
+   "ups_cas_collection_exp_isJSON_key_revSeqNo_tombstone_value__set_cas_exp_isJSON_revSeqNo_tombstone_value_xattrsN__if_tombstoneIs1",
+   "ups_cas_collection_exp_isJSON_key_revSeqNo_tombstone_value_xattrs__set_cas_exp_isJSON_revSeqNo_tombstone_value_xattrs__if_collection_key",
+   "ups_cas_collection_exp_isJSON_key_revSeqNo_value__set_cas_exp_isJSON_revSeqNo_tombstone0_value_xattrsN__if_tombstoneNot0"]
+
+/-- Statements are named by what they do (kind, assigned columns and literals, shape of the condition), not by the Go function they stand in, and equal
+statements are one definition; `uses` (regenerated) says which function uses which. **Every statement on `documents` that any function of /repo uses is one of
+the shapes tied in these files** - a read that no longer pins its collection, or a write with another SET list, is a new shape and shows up here. -/
+theorem every_use_is_a_known_shape : ∀ u ∈ uses, u.2 ∈ knownShapes := by decide +kernel
+
 /-- Every read of one key (before a write, or on its own) pins both `collection` and `key`. -/
 theorem point_reads_pin_collection_and_key :
-    ∀ q ∈ [Collection_DeleteSubDocPaths_WHERE_0, Collection_DeleteWithXattrs_WHERE_0, Collection_GetExpiry_WHERE_0,
-           Collection_WriteCas_WHERE_0, Collection_WriteCas_WHERE_1, Collection__set_WHERE_0, Collection_add_WHERE_0,
-           Collection_exists_WHERE_0, Collection_getRaw_WHERE_0, Collection_getRawWithXattrs_WHERE_0, Collection_getRawXattrs_WHERE_0,
-           Collection_isTombstone_WHERE_0, Collection_remove_WHERE_0, Collection_set_WHERE_0, Collection_writeWithMeta_WHERE_0,
-           Collection_writeWithXattrs_WHERE_0],
+    ∀ q ∈ [sel_by_collection_key, sel_by_collection_key, sel_by_collection_key,
+           sel_by_collection_key, sel_by_collection_key, sel_by_collection_key, sel_by_collection_key,
+           sel_by_collection_key_valueSet, sel_by_collection_key, sel_by_collection_key, sel_by_collection_key,
+           sel_by_collection_key_tombstoneIs1, sel_by_collection_key, sel_by_collection_key, sel_by_collection_key,
+           sel_by_collection_key],
       q.cond.pins .collection "$where.collection" = true ∧ q.cond.pins .key "$where.key" = true := by
   decide
 
 /-- Every scan (backfill, expiry sweep, `$_keyspace`, view update) pins `collection`. -/
 theorem scans_pin_collection :
-    ∀ q ∈ [Collection_enqueueBackfillEvents_WHERE_0, Collection_expireDocuments_WHERE_0, Collection_prepareQuery_WHERE_0,
-           Collection_updateView_WHERE_0, Collection_updateView_WHERE_1],
+    ∀ q ∈ [sel_by_casGe_collection__order_cas, sel_by_collection_expLe_expPos, sel_by_collection_valueSet,
+           sel_by_casGt_collection, sel_by_casGt_collection_or],
       q.cond.pins .collection "$where.collection" = true := by
   decide
 
